@@ -258,6 +258,33 @@ class Program:
                         work.append(o)
         return out
 
+    def closure_target(self, call, within):
+        """the local closure of function `within` that `call` (an `operator()` application on a closure variable) invokes, or None"""
+        import re
+        if not (SX.is_node(call) and call.get('k') == 'opcall' and call.get('op') == '()'):
+            return None
+        m = re.search(r'lambda at [^)]*:(\d+):(\d+)\)', call.get('at', '') or '')
+        if not m:
+            return None
+        ln, col = int(m.group(1)), int(m.group(2))
+        for lf in within.lambdas:
+            if lf.node.get('ln') == ln and lf.node.get('col') == col:
+                return lf
+        return None
+
+    def closure_calls(self, lam):
+        """([call nodes of the local closure `lam` in its defining function], every mention of the closure variable is such a call)"""
+        par = lam.parent
+        if par is None or not par.body:
+            return [], False
+        calls = [n for n in SX.walk(par.body, into_lambdas=False) if self.closure_target(n, par) is lam]
+        var = [n for n in SX.walk(par.body, into_lambdas=False) if n.get('k') == 'var' and SX.strip(n.get('init')) is lam.node]
+        if len(var) != 1:
+            return calls, False
+        heads = {id(SX.strip(c['args'][0])) for c in calls}
+        refs = [n for n in SX.walk(par.body) if n.get('k') == 'ref' and n.get('id') == var[0].get('id')]
+        return calls, all(id(r) in heads for r in refs)
+
     def callees(self, f):
         """[(call_node, [Function...])] for every call-like node in f (not descending into lambdas),
         plus an edge to each lambda defined in f."""
